@@ -748,7 +748,7 @@ class TorControlProtocol(LineOnlyReceiver):
         Internal method to deal with 600-level responses.
         """
 
-        firstline = rest[:rest.find('\n')]
+        firstline = rest.split('\n', 1)[0]
         args = firstline.split()
         name = args[0]
         if name in self.events:
